@@ -177,22 +177,32 @@ def check(ctx) -> Result:
     cfgd = ctx.cfg(rd)
     domd = cfgd.dominators()
     from ..cfg import own_exprs as _oe
-    recs = [n for n in cfgd.nodes if n.kind == "stmt" and isinstance(n.ast, ast.Assign) and isinstance(n.ast.targets[0], ast.Subscript) and src(n.ast.targets[0].value) == "phase_map"]
-    upd = [n for n in cfgd.nodes if n.kind == "stmt" and isinstance(n.ast, ast.Assign) and src(n.ast.targets[0]) == "unitary" and "@" in src(n.ast.value) and "tr_ij" in src(n.ast.value)]
-    trd = [n for n in cfgd.nodes if n.kind == "stmt" and isinstance(n.ast, ast.Assign) and src(n.ast.targets[0]) == "tr_ij" and "bs_matrix(" in src(n.ast.value)]
+    from ..rules.rm_struct import _matmul
+    uname = rd.params()[0]
+    returned = {x.id for r in walk_no_nested(rd.node) if isinstance(r, ast.Return) and r.value is not None for x in ast.walk(r.value) if isinstance(x, ast.Name)}
+    recs = [n for n in cfgd.nodes if n.kind == "stmt" and isinstance(n.ast, ast.Assign) and isinstance(n.ast.targets[0], ast.Subscript) and isinstance(n.ast.targets[0].value, ast.Name) and n.ast.targets[0].value.id in returned and n.ast.targets[0].value.id != uname]
+    trd = [n for n in cfgd.nodes if n.kind == "stmt" and isinstance(n.ast, ast.Assign) and isinstance(n.ast.targets[0], ast.Name) and isinstance(n.ast.value, ast.Call) and src(n.ast.value.func) == "bs_matrix"]
+    tname = trd[0].ast.targets[0].id if trd else None
+    upd = [n for n in cfgd.nodes if n.kind == "stmt" and isinstance(n.ast, ast.Assign) and src(n.ast.targets[0]) == uname and _matmul(n.ast.value) is not None and tname and any(isinstance(x, ast.Name) and x.id == tname for x in ast.walk(n.ast.value))]
     if not recs or not upd or not trd:
-        raise AnalysisError("reck_decomposition: phase-map stores / matrix update not found")
-    targs = [src(a) for a in trd[0].ast.value.args]
-    for r in recs:
-        val = src(r.ast.value)
-        applied = any(u.id in domd[r.id] for u in upd) and any(t.id in domd[r.id] for t in trd) and val in targs[2:4]
-        res.add(applied, "D-recorded-cell-is-applied", f"reck_decomposition:{src(r.ast.targets[0])[:40]}", rd.site(r.ast), rd.qualname, "the (theta, phi) written to the phase map are the ones of the cell multiplied into the running matrix on every path",
-                f"`{src(r.ast)[:70]}` records a unit-cell setting on a path where that cell was not applied to the running matrix (or a different value was applied): the programmed mesh differs from the decomposition", construct=src(r.ast)[:120])
+        res.frozen(False, "D-recorded-cell-is-applied", "reck_decomposition", rd.site(), rd.qualname, "", f"decomposition loop not recognised (phase-map stores {len(recs)}, bs_matrix cells {len(trd)}, matrix updates {len(upd)})", construct="reck_decomposition")
+    else:
+        bound = {}
+        hp = ctx.func(DEC, "bs_matrix").params()
+        bound = dict(zip(hp, [src(a_) for a_ in trd[0].ast.value.args]))
+        bound.update({k.arg: src(k.value) for k in trd[0].ast.value.keywords if k.arg})
+        targs = [bound.get("theta"), bound.get("phi")]
+        for r in recs:
+            val = src(r.ast.value)
+            applied = any(u.id in domd[r.id] for u in upd) and any(t.id in domd[r.id] for t in trd) and val in targs
+            res.add(applied, "D-recorded-cell-is-applied", f"reck_decomposition:{src(r.ast.targets[0])[:40]}", rd.site(r.ast), rd.qualname, "the (theta, phi) written to the phase map are the ones of the cell multiplied into the running matrix on every path",
+                    f"`{src(r.ast)[:70]}` records a unit-cell setting on a path where that cell was not applied to the running matrix (or a different value was applied): the programmed mesh differs from the decomposition", construct=src(r.ast)[:120])
     res.floor("recorded unit-cell settings", len(recs), 2)
     # ---- Reck.map
     rk = ctx.ix.module(RECK)
     R = rk.classes.get("Reck")
-    mp = R.methods["map"]
+    from ..inline import with_helpers
+    mp = with_helpers(ctx, R.methods["map"], inline_locals=False)
     cfg = ctx.cfg(mp)
     dom = cfg.dominators()
     from ..cfg import own_exprs
